@@ -242,6 +242,7 @@ func Corpus(o Options) []Case {
 	var cases []Case
 	add := func(id, body string, tparams string, nT int, inPkg bool, methods []string, targs [][]string, extra string) {
 		name := ident(len(cases))
+		extra = strings.ReplaceAll(extra, "%NAME%", name)
 		decl := extra + fmt.Sprintf("// %s\ntype %s%s interface {\n%s}\n", id, name, tparams, body)
 		iso := false
 		for _, w := range []string{"mockp.", "syncp.", "fmtp."} {
@@ -383,6 +384,10 @@ func Corpus(o Options) []Case {
 		form("generic io constraint", "[R io.Reader]", 1, "\tM(r R) (R, error)\n", []string{"M"}, [][]string{{"io.Reader"}, {"*strings.Reader"}}, "")
 		form("generic tilde over composite types with qualified elements", "[S ~[]time.Duration, M ~map[string]dep.T]", 2, "\tM(s S, m M) (S, M)\n", []string{"M"}, [][]string{{"[]time.Duration", "map[string]dep.T"}}, "")
 		form("generic union of tilde composite and plain terms", "[U ~[]dep.T | ~map[dep.T]bool | *LT]", 1, "\tM(u U) U\n", []string{"M"}, [][]string{{"[]dep.T"}, {"*src.LT"}}, "")
+		// alias declarations that point back at the interface: they must not make it a second candidate
+		form("generic with aliases of its instantiations", "[K comparable, V any]", 2, "\tGet(k K) (V, bool)\n", []string{"Get"}, [][]string{{"int", "string"}, {"string", "src.LT"}},
+			"type %NAME%StrAlias = %NAME%[string, string]\n\ntype %NAME%IntAlias = %NAME%[int, []byte]\n\n")
+		form("interface with a plain alias", "", 0, "\tM(a int) int\n", []string{"M"}, nil, "type %NAME%Alias = %NAME%\n\n")
 		form("generic lower-case param", "[t any]", 1, "\tM(a t) t\n", []string{"M"}, simpleT, "")
 		form("generic embeds generic", "[T any]", 1, "\tLIG[T]\n\tM(a T)\n", []string{"Get", "M"}, simpleT, "")
 		form("generic embeds instantiated generic with a concrete argument", "[T any]", 1, "\tLIG[dep.T]\n\tdep.IG[[]T]\n\tPut(k string, v T)\n", []string{"DepG", "Get", "Put"}, simpleT, "")
